@@ -382,10 +382,10 @@ class MinimizerIMinuit(MinimizerBase):
 
         self._get_iminuit().migrad(ncall=max_calls)
 
+        # invalidate cache (before the new parameter values and errors are read back)
+        self._did_fit = True
+        self._invalidate_cache()
+
         for _pn, _pv, _pe in zip(self.parameter_names, self.parameter_values, self.parameter_errors):
             self._minimizer_param_dict[_pn] = _pv
             self._minimizer_param_dict["error_" + _pn] = _pe
-
-        # invalidate cache
-        self._did_fit = True
-        self._invalidate_cache()
